@@ -451,15 +451,26 @@ func scanAllLevels(files []*descriptorpb.FileDescriptorProto, toGen []string) (f
 			errs = append(errs, lvl+": "+res.Err)
 			continue
 		}
+		// names as they are before generation (generating the hybrid level rewrites every message to OPAQUE
+		// for the _protoopaque variant)
+		fresh, err := protogen.Options{}.New(makeRequest(files, toGen, "default_api_level="+lvl))
+		if err != nil {
+			errs = append(errs, lvl+": "+err.Error())
+			continue
+		}
 		for v, srcs := range res.variants() {
+			gen := fresh
+			if strings.HasSuffix(v, "+protoopaque") {
+				gen = res.Gen
+			}
 			dups, err := scanDups(v, srcs)
 			if err != nil {
 				errs = append(errs, v+": generated code does not parse: "+err.Error())
 				continue
 			}
 			for _, d := range dups {
-				sig, wrapper := classify(res.Gen, d)
-				if sig == "" && (d.Scope == "" || !isMsgScope(allMessages(res.Gen), d.Scope)) && !wrapper {
+				sig, wrapper := classify(gen, d)
+				if sig == "" && (d.Scope == "" || !isMsgScope(allMessages(gen), d.Scope)) && !wrapper {
 					sig = steerSchemaIdent
 				}
 				finds = append(finds, scanFinding{Dup: d, Sig: sig, Variant: v})
@@ -481,8 +492,30 @@ type msgNamesJSON struct {
 	Fields map[string]fieldNamesJSON `json:"fields"`
 }
 
-func nameTable(gen *protogen.Plugin) map[string]msgNamesJSON {
+// nameTable needs a plugin on which GenerateFile has NOT run (generating the hybrid level rewrites the API
+// level of every message for the _protoopaque variant). protoopaque selects that variant's names.
+func nameTable(files []*descriptorpb.FileDescriptorProto, toGen []string, level string, protoopaque bool) (map[string]msgNamesJSON, error) {
+	gen, err := protogen.Options{}.New(makeRequest(files, toGen, "default_api_level="+level))
+	if err != nil {
+		return nil, err
+	}
 	out := map[string]msgNamesJSON{}
+	if protoopaque {
+		// what internal_gengo.generateFiles does before emitting the _protoopaque variant of a hybrid file:
+		// every message of the file becomes OPAQUE (also those with an explicit per-message level)
+		for _, f := range gen.Files {
+			if f.Generate && f.APILevel == gofeaturespb.GoFeatures_API_HYBRID {
+				var walk func(ms []*protogen.Message)
+				walk = func(ms []*protogen.Message) {
+					for _, m := range ms {
+						m.APILevel = gofeaturespb.GoFeatures_API_OPAQUE
+						walk(m.Messages)
+					}
+				}
+				walk(f.Messages)
+			}
+		}
+	}
 	for _, m := range allMessages(gen) {
 		if m.Desc.IsMapEntry() {
 			continue
@@ -500,5 +533,5 @@ func nameTable(gen *protogen.Plugin) map[string]msgNamesJSON {
 		}
 		out[string(m.Desc.FullName())] = mn
 	}
-	return out
+	return out, nil
 }
